@@ -456,6 +456,8 @@ def item_len(it):
         return C(2)
     if it.k == "lit":
         return C(len(it.a[0]))
+    if it.k == "zeros":
+        return it.a[0]          # bytearray(n): n zero octets, n symbolic
     if it.k == "bytes":
         return length(it.a[0])
     if it.k == "alt":
